@@ -217,8 +217,10 @@ pub fn run() -> Report {
                         let b2 = competitor(&chain.blocks, x.height + 1, tag + 1, x.later, Some(b1.hash()));
                         let b3 = competitor(&chain.blocks, x.height + 2, tag + 2, x.later, Some(b2.hash()));
                         add(&mut world, &b1, x.height, ACTIVE | FAILED_VALID);
+                        // (the top block was invalidated itself AND descends from an invalidated block - invalidateblock on a
+                        // block and later on its parent: both flags)
                         add(&mut world, &b2, x.height + 1, ACTIVE | FAILED_CHILD);
-                        add(&mut world, &b3, x.height + 2, ACTIVE | FAILED_CHILD);
+                        add(&mut world, &b3, x.height + 2, ACTIVE | FAILED_CHILD | if x.later { FAILED_VALID } else { 0 });
                     }
                     Kind::UnconnectedAbove => {
                         let b1 = competitor(&chain.blocks, x.height, tag, x.later, Some(chain.blocks[TIP as usize].hash()));
@@ -545,7 +547,7 @@ fn high_heights(rep: &mut Report, root: &std::path::Path) {
                         for k in 0..3u64 {
                             let b = mk(tip + k, 30 + k as u32, parent);
                             foreign.extend(b.txs.iter().map(|t| refmodel::ser::hash_hex(&t.txid())));
-                            world.add_block_status(1, tip + k, &b, ACTIVE | if k == 0 { FAILED_VALID } else { FAILED_CHILD });
+                            world.add_block_status(1, tip + k, &b, ACTIVE | if k == 0 { FAILED_VALID } else if k == 2 && bi % 2 == 1 { FAILED_VALID | FAILED_CHILD } else { FAILED_CHILD });
                             parent = b.hash();
                         }
                         "invalidated-branch-above-the-tip"
